@@ -16,6 +16,8 @@ ECF = "litedram/frontend/ecc.py"
 BIF = "litedram/frontend/bist.py"
 INF = "litedram/init.py"
 DFF = "litedram/dfii.py"
+DIF = "litedram/phy/dfi.py"
+UTF = "litedram/phy/utils.py"
 
 
 def M(id, prop, ob, file, old, new, expect="refuted", **kw):
@@ -203,4 +205,14 @@ MUTANTS = [
     M("c17.5-c-const", "C17", "C17.5", INF, 'r.define("DFII_COMMAND_WE",     "0x02")', 'r.define("DFII_COMMAND_WE",     "0x04")'),
     M("c17.5-csr-order", "C17", "C17.5", DFF, '            CSRField("cs",   size=1, description="DFI chip select bus"),\n            CSRField("we",   size=1, description="DFI write enable bus"),', '            CSRField("we",   size=1, description="DFI write enable bus"),\n            CSRField("cs",   size=1, description="DFI chip select bus"),'),
     M("c17.5-mask-differs", "C17", "C17.5", INF, "                invert_masks.append((0b10101111111000, 0b1111))\n\n        for a_inv, ba_inv in invert_masks:\n            r +=", "                invert_masks.append((0b10101111111000, 0b0111))\n\n        for a_inv, ba_inv in invert_masks:\n            r +="),
+    # ---- C18 ----
+    M("c18.1-hoist", "C18", "C18.1", DFF, "                ).Else(\n                    self.slave.connect(self.master),", "                ).Else(\n                    self.master.p0.cke.eq(self.slave.p0.cke),"),
+    M("c18.1-cs-broadcast", "C18", "C18.1", DFF, "        for i in range(nranks):\n", "        if is_clam_shell:\n            self.comb += If(~self.ext_dfi_sel, [self.master.phases[i].cs_n.eq(Replicate(self.slave.phases[i].cs_n, 2)) for i in range(nphases)])\n        for i in range(nranks):\n"),
+    M("c18.1-omit", "C18", "C18.1", DFF, "self.slave.connect(self.master),", 'self.slave.connect(self.master, omit={"p0"}),'),
+    M("c18.2-data-map", "C18", "C18.2", DIF, "                for j in range(ratio):\n                    phase_m = self.dfi.phases[pi*ratio + j]\n                    sigs_m.append(getattr(phase_m, name))\n\n                width = len(Cat(sigs_m))", "                for j in range(ratio):\n                    phase_m = self.dfi.phases[pi + ratio*j]\n                    sigs_m.append(getattr(phase_m, name))\n\n                width = len(Cat(sigs_m))"),
+    M("c18.2-cmd-map", "C18", "C18.2", DIF, "phase_m = self.dfi.phases[pi + len(phy_dfi.phases)*j]", "phase_m = self.dfi.phases[pi*ratio + j]"),
+    M("c18.3-latency", "C18", "C18.3", UTF, "    LATENCY = 2\n", "    LATENCY = 1\n"),
+    M("c18.3-noreg", "C18", "C18.3", UTF, "def __init__(self, clkdiv, clk, i_dw, o_dw, i=None, o=None, reset=None, register=True,", "def __init__(self, clkdiv, clk, i_dw, o_dw, i=None, o=None, reset=None, register=False,"),
+    M("c18.4-rd-window", "C18", "C18.4", DIF, "sig_m_window = sig_m[read_delay*out_width:(read_delay + 1)*out_width]", "sig_m_window = sig_m[read_delay*out_width:(read_delay + 1)*out_width - 1]"),
+    M("c18.4-valid-cycle", "C18", "C18.4", DIF, "Replicate(sig_m[read_delay], ratio)", "Replicate(sig_m[0], ratio)"),
 ]
